@@ -13,4 +13,14 @@ void *wb_thread_stacktop(ABT_thread th);
 size_t wb_thread_stacksize(ABT_thread th);
 const void *wb_thread_ctx(ABT_thread th);
 int wb_thread_is_in_pool(ABT_thread th);
+/* white-box memory-pool driver (ABTI_mem_pool_*): element = [ptr, ptr+elem_size), the pool's
+ * own header lives at ptr+hdr_off while the element is free */
+typedef struct wb_mp wb_mp;
+wb_mp *wb_mp_create(size_t nhdr_per_bucket, size_t elem_size, size_t hdr_off, size_t page_size, int lp_kind, int use_mprotect);
+int wb_mp_local_init(wb_mp *m, int idx);
+void *wb_mp_alloc(wb_mp *m, int idx);
+void wb_mp_free(wb_mp *m, int idx, void *elem);
+void wb_mp_local_destroy(wb_mp *m, int idx);
+void wb_mp_destroy(wb_mp *m);
+size_t wb_mp_header_bytes(void);
 #endif
